@@ -1,2 +1,760 @@
-(* C18 — stub *)
+(* C18 -- proofs.  Plan:
+     1. convert (the fixed convertAttrToField) denotes exactly the contract's attr semantics,
+        and is Skip exactly when that semantics is empty          (convert_sem)
+     2. the Handle/WithAttrs loop with deferred namespaces           (loop_sem)
+     3. invariant tying a handler (ctx fields, pending groups in the heap) to its
+        derivation sequence, for every continuation                  (hinv)
+     4. programs: any derivation tree, any interleaving              (program_thm)
+     5. corollaries: semantics of chains, isolation, levels, enabled, wire
+     6. the code before the fix: refutations                         (the _refuted lemmas) *)
+From Coq Require Import List ZArith Bool Lia.
+From Coq.Strings Require Import Byte.
+Import ListNotations.
 From Zap Require Import Base.Wire C18.Model.
+Local Open Scope Z_scope.
+
+(* ------------------------------------------------------------------ *)
+(* 0. generalities                                                     *)
+(* ------------------------------------------------------------------ *)
+Lemma sx_eqb_refl s : sx_eqb s s = true.
+Proof.
+  revert s. fix IH 1. intros [z|b|l]; cbn.
+  - apply Z.eqb_refl.
+  - now apply bytes_eqb_eq.
+  - induction l as [|a r IHr]; [reflexivity|]. now rewrite IH, IHr.
+Qed.
+
+Lemma is_nil_true {A} (l : list A) : is_nil l = true <-> l = [].
+Proof. destruct l; cbn; split; congruence. Qed.
+Lemma is_nil_false {A} (l : list A) : is_nil l = false <-> l <> [].
+Proof. destruct l; cbn; split; congruence. Qed.
+Lemma is_nil_app {A} (a b : list A) : is_nil (a ++ b) = is_nil a && is_nil b.
+Proof. destruct a; reflexivity. Qed.
+
+Section value_induction.
+  Variable P : value -> Prop.
+  Hypothesis HS : forall k t, P (VScalar k t).
+  Hypothesis HA : forall b t, P (VAny b t).
+  Hypothesis HG : forall l, Forall (fun kv => P (snd kv)) l -> P (VGroup l).
+  Hypothesis HL : forall v, P v -> P (VLogValuer v).
+  Fixpoint value_ind' (v : value) : P v :=
+    match v with
+    | VScalar k t => HS k t
+    | VAny b t => HA b t
+    | VGroup l => HG l ((fix go (l : list (bytes * value)) : Forall (fun kv => P (snd kv)) l :=
+                           match l with
+                           | [] => Forall_nil _
+                           | kv :: r => Forall_cons kv (value_ind' (snd kv)) (go r)
+                           end) l)
+    | VLogValuer v' => HL v' (value_ind' v')
+    end.
+End value_induction.
+
+(* named versions of the inner fixpoints (convertible with them) *)
+Definition conv_list :=
+  fix go (l : list (bytes * value)) : list field :=
+    match l with
+    | [] => []
+    | (k', v') :: r => let f := convert k' v' in if is_skip f then go r else f :: go r
+    end.
+Definition conv_list_orig :=
+  fix go (l : list (bytes * value)) : list field :=
+    match l with [] => [] | (k', v') :: r => convert_orig k' v' :: go r end.
+Definition res_list :=
+  fix go (l : list (bytes * value)) : list (bytes * rvalue) :=
+    match l with [] => [] | (k, v') :: r => (k, resolve_all v') :: go r end.
+Definition rsem_list :=
+  fix go (l : list (bytes * rvalue)) : otree :=
+    match l with [] => [] | (k', v') :: r => rattr_sem k' v' ++ go r end.
+
+Definition group_field (k : bytes) (fs : list field) : field :=
+  if is_nil fs then FSkip else if is_nil k then FInline fs else FObject k fs.
+
+Lemma convert_group k l : convert k (VGroup l) = group_field k (conv_list l).
+Proof. destruct k; reflexivity. Qed.
+Lemma convert_orig_group k l :
+  convert_orig k (VGroup l) = if is_nil k then FInline (conv_list_orig l) else FObject k (conv_list_orig l).
+Proof. destruct k; reflexivity. Qed.
+Lemma convert_scalar k kd txt : convert k (VScalar kd txt) = FScalar (ztype_of kd) k txt.
+Proof. destruct k; reflexivity. Qed.
+Lemma convert_logvaluer k v : convert k (VLogValuer v) = convert k v.
+Proof. destruct k; reflexivity. Qed.
+Lemma convert_any k b t : convert k (VAny b t) = if is_nil k && b then FSkip else FAny k t.
+Proof. destruct k, b; reflexivity. Qed.
+
+Lemma denote_f_object k fs tail : denote_f (FObject k fs) tail = (k, Node (denote fs)) :: tail.
+Proof. reflexivity. Qed.
+Lemma denote_f_inline fs tail : denote_f (FInline fs) tail = fold_right denote_f tail fs.
+Proof. reflexivity. Qed.
+
+Lemma resolve_group l : resolve_all (VGroup l) = RGroup (res_list l).
+Proof. reflexivity. Qed.
+Lemma rattr_group k l :
+  rattr_sem k (RGroup l) =
+  if is_nil (rsem_list l) then [] else if is_nil k then rsem_list l else [(k, Node (rsem_list l))].
+Proof. reflexivity. Qed.
+Lemma rsem_res l : rsem_list (res_list l) = attrs_sem l.
+Proof.
+  induction l as [|[k v] r IH]; [reflexivity|].
+  cbn [res_list rsem_list attrs_sem flat_map]. unfold attr_sem at 1. cbn [fst snd].
+  fold res_list. fold rsem_list. rewrite IH. reflexivity.
+Qed.
+Lemma attr_sem_group k l :
+  attr_sem (k, VGroup l) =
+  if is_nil (attrs_sem l) then [] else if is_nil k then attrs_sem l else [(k, Node (attrs_sem l))].
+Proof. unfold attr_sem. cbn [fst snd]. rewrite resolve_group, rattr_group, rsem_res. reflexivity. Qed.
+
+(* Value.Resolve: strip every LogValuer layer.  The code resolves and recurses; the model
+   recurses layer by layer: same function. *)
+Fixpoint resolve (v : value) : value := match v with VLogValuer v' => resolve v' | _ => v end.
+Lemma convert_resolve k v : convert k (VLogValuer v) = convert k (resolve v).
+Proof.
+  rewrite convert_logvaluer. induction v as [kd t|b t|l|v IH]; try reflexivity.
+  cbn [resolve]. rewrite convert_logvaluer. exact IH.
+Qed.
+Lemma convert_orig_resolve k v : convert_orig k (VLogValuer v) = convert_orig k (resolve v).
+Proof.
+  assert (E : forall v, convert_orig k (VLogValuer v) = convert_orig k v) by (intro; destruct k; reflexivity).
+  rewrite E. induction v as [kd t|b t|l|v IH]; try reflexivity.
+  cbn [resolve]. rewrite E. exact IH.
+Qed.
+
+(* ------------------------------------------------------------------ *)
+(* 1. convert = the contract's attr semantics                          *)
+(* ------------------------------------------------------------------ *)
+Definition conv_ok (k : bytes) (v : value) : Prop :=
+  (forall tail, denote_f (convert k v) tail = attr_sem (k, v) ++ tail) /\
+  is_skip (convert k v) = is_nil (attr_sem (k, v)).
+
+Lemma conv_list_sem l :
+  Forall (fun kv => forall k, conv_ok k (snd kv)) l ->
+  (forall tail, fold_right denote_f tail (conv_list l) = attrs_sem l ++ tail) /\
+  is_nil (conv_list l) = is_nil (attrs_sem l).
+Proof.
+  intro HF. induction HF as [|[k v] r Hkv _ IH]; [split; reflexivity|].
+  destruct IH as [IHd IHn]. destruct (Hkv k) as [Hd Hs]. cbn [snd] in Hd, Hs.
+  cbn [conv_list attrs_sem flat_map]. fold conv_list. fold (attrs_sem r).
+  destruct (is_skip (convert k v)) eqn:Esk.
+  - symmetry in Hs. apply is_nil_true in Hs. rewrite Hs. cbn [app]. split; assumption.
+  - symmetry in Hs. split.
+    + intro tail. cbn [fold_right]. rewrite Hd, IHd, app_assoc. reflexivity.
+    + rewrite is_nil_app, Hs. reflexivity.
+Qed.
+
+Lemma convert_sem v : forall k, conv_ok k v.
+Proof.
+  induction v as [kd txt|b t|l IH|v IH] using value_ind'; intro k.
+  - unfold conv_ok. rewrite convert_scalar. split; reflexivity.
+  - unfold conv_ok. rewrite convert_any. unfold attr_sem. cbn [fst snd resolve_all rattr_sem].
+    destruct (is_nil k && b); split; reflexivity.
+  - destruct (conv_list_sem l IH) as [Hd Hn].
+    unfold conv_ok. rewrite convert_group, attr_sem_group. unfold group_field. rewrite Hn.
+    destruct (is_nil (attrs_sem l)) eqn:En; [split; reflexivity|].
+    destruct (is_nil k) eqn:Ek.
+    + split; [intro tail; rewrite denote_f_inline; apply Hd|cbn [is_skip]; now rewrite En].
+    + split; [|reflexivity]. intro tail. rewrite denote_f_object. unfold denote.
+      rewrite Hd, app_nil_r. reflexivity.
+  - unfold conv_ok. rewrite convert_logvaluer. exact (IH k).
+Qed.
+
+Lemma convert_denote k v tail : denote_f (convert k v) tail = attr_sem (k, v) ++ tail.
+Proof. apply convert_sem. Qed.
+Lemma convert_skip k v : is_skip (convert k v) = is_nil (attr_sem (k, v)).
+Proof. apply convert_sem. Qed.
+
+(* ------------------------------------------------------------------ *)
+(* 2. the attr loop                                                    *)
+(* ------------------------------------------------------------------ *)
+Definition nest (gs : list bytes) (c : otree) : otree := fold_right (fun g c => [(g, Node c)]) c gs.
+(* pending groups show only if something appears inside *)
+Definition wrapg (gs : list bytes) (c : otree) : otree := if is_nil c then [] else nest gs c.
+
+Lemma denote_namespaces gs tail : fold_right denote_f tail (map FNamespace gs) = nest gs tail.
+Proof. induction gs as [|g r IH]; [reflexivity|]. cbn [map fold_right nest denote_f]. fold (nest r tail). now rewrite IH. Qed.
+
+Lemma nest_app gs n c : nest (gs ++ [n]) c = nest gs [(n, Node c)].
+Proof. unfold nest. rewrite fold_right_app. reflexivity. Qed.
+Lemma nest_nonnil gs c : c <> [] -> nest gs c <> [].
+Proof. destruct gs; cbn; [auto|discriminate]. Qed.
+
+Lemma attr_loop_acc cv gs attrs : forall fields added,
+  attr_loop cv gs attrs fields added =
+  (fields ++ fst (attr_loop cv gs attrs [] added), snd (attr_loop cv gs attrs [] added)).
+Proof.
+  induction attrs as [|[k v] r IH]; intros fields added.
+  - cbn. now rewrite app_nil_r.
+  - cbn [attr_loop].
+    destruct (negb added && negb (is_nil gs) && negb (is_skip (cv k v))) eqn:E.
+    + rewrite IH. rewrite (IH (([] ++ map FNamespace gs) ++ [cv k v])). cbn [fst snd app].
+      rewrite <- !app_assoc. reflexivity.
+    + rewrite IH. rewrite (IH ([] ++ [cv k v])). cbn [fst snd app].
+      rewrite <- !app_assoc. reflexivity.
+Qed.
+
+Definition conv_attr (a : attr) : field := convert (fst a) (snd a).
+
+Lemma map_conv_denote attrs tail : fold_right denote_f tail (map conv_attr attrs) = attrs_sem attrs ++ tail.
+Proof.
+  induction attrs as [|[k v] r IH]; [reflexivity|].
+  cbn [map fold_right attrs_sem flat_map]. fold (attrs_sem r). unfold conv_attr at 1. cbn [fst snd].
+  rewrite convert_denote, IH, app_assoc. reflexivity.
+Qed.
+
+(* once the namespaces are out (or when there are none) the loop is a map *)
+Lemma attr_loop_plain gs attrs added :
+  added = true \/ gs = [] ->
+  attr_loop convert gs attrs [] added = (map conv_attr attrs, added).
+Proof.
+  intro H. induction attrs as [|[k v] r IH]; [reflexivity|].
+  cbn [attr_loop].
+  assert (E : negb added && negb (is_nil gs) && negb (is_skip (convert k v)) = false).
+  { destruct H as [-> | ->]; [reflexivity|]. cbn. now rewrite andb_false_r. }
+  rewrite E, attr_loop_acc, IH. reflexivity.
+Qed.
+
+Lemma loop_sem gs attrs F added :
+  attr_loop convert gs attrs [] false = (F, added) ->
+  added = negb (is_nil gs) && negb (is_nil (attrs_sem attrs)) /\
+  forall T, fold_right denote_f T F = if added then nest gs (attrs_sem attrs ++ T) else attrs_sem attrs ++ T.
+Proof.
+  destruct (is_nil gs) eqn:Egs.
+  - apply is_nil_true in Egs. subst gs. rewrite attr_loop_plain by (right; reflexivity).
+    intros [= <- <-]. split; [reflexivity|]. intro T. apply map_conv_denote.
+  - revert F added. induction attrs as [|[k v] r IH]; intros F added.
+    + cbn. intros [= <- <-]. split; reflexivity.
+    + cbn [attr_loop negb andb]. rewrite Egs. cbn [negb andb].
+      cbn [attrs_sem flat_map]. fold (attrs_sem r).
+      pose proof (convert_skip k v) as Hs. pose proof (convert_denote k v) as Hd.
+      destruct (is_skip (convert k v)) eqn:Esk; cbn [negb].
+      * symmetry in Hs. apply is_nil_true in Hs. rewrite Hs. cbn [app].
+        rewrite attr_loop_acc. intros [= <- <-].
+        destruct (attr_loop convert gs r [] false) as [F' a'] eqn:EL.
+        destruct (IH F' a' eq_refl) as [Ha HT]. cbn [fst snd]. split; [exact Ha|].
+        intro T. cbn [app fold_right]. rewrite Hd, Hs. cbn [app]. apply HT.
+      * symmetry in Hs. rewrite attr_loop_acc.
+        rewrite attr_loop_plain by (left; reflexivity). cbn [fst snd]. intros [= <- <-].
+        rewrite is_nil_app, Hs. cbn [andb negb]. split; [reflexivity|].
+        intro T. cbn [app]. rewrite !fold_right_app. cbn [fold_right].
+        rewrite denote_namespaces, map_conv_denote, Hd, app_assoc. reflexivity.
+Qed.
+
+(* ------------------------------------------------------------------ *)
+(* 3. handler invariant                                                *)
+(* ------------------------------------------------------------------ *)
+(* the contract as a context: what the derivation sequence does to the contribution c of
+   whatever comes after it *)
+Fixpoint spec_k (ops : list op) (c : otree) : otree :=
+  match ops with
+  | [] => c
+  | OAttrs a :: r => attrs_sem a ++ spec_k r c
+  | OGroup n :: r =>
+      let c' := spec_k r c in
+      if is_nil n then c' else if is_nil c' then [] else [(n, Node c')]
+  end.
+Lemma spec_sem_k ops rec : spec_sem ops rec = spec_k ops (attrs_sem rec).
+Proof. induction ops as [|[n|a] r IH]; cbn [spec_sem spec_k]; now rewrite ?IH. Qed.
+Lemma spec_k_app ops o c : spec_k (ops ++ [o]) c = spec_k ops (spec_k [o] c).
+Proof. induction ops as [|[n|a] r IH]; cbn [app spec_k]; now rewrite ?IH. Qed.
+
+Definition svalid (hp : heap) (s : gslice) : Prop :=
+  match s with None => True | Some (a, _) => (a < length hp)%nat end.
+
+Definition hinv (name : bytes) (hp : heap) (h : handler) (ops : list op) : Prop :=
+  h_name h = name /\ svalid hp (h_groups h) /\
+  forall c, fold_right denote_f (wrapg (read_groups hp (h_groups h)) c) (h_ctx h) = spec_k ops c.
+
+Lemma read_groups_ext hp ext s : svalid hp s -> read_groups (hp ++ ext) s = read_groups hp s.
+Proof. destruct s as [[a n]|]; [|reflexivity]. cbn. intro H. now rewrite app_nth1. Qed.
+Lemma svalid_ext hp ext s : svalid hp s -> svalid (hp ++ ext) s.
+Proof. destruct s as [[a n]|]; [|auto]. cbn. rewrite app_length. lia. Qed.
+Lemma hinv_ext name hp ext h ops : hinv name hp h ops -> hinv name (hp ++ ext) h ops.
+Proof.
+  intros (Hn & Hv & Hc). split; [exact Hn|]. split; [now apply svalid_ext|].
+  intro c. rewrite read_groups_ext by exact Hv. apply Hc.
+Qed.
+
+Lemma hinv_root name hp : hinv name hp (root name) [].
+Proof. split; [reflexivity|]. split; [exact I|]. intro c. cbn. unfold wrapg. destruct c; reflexivity. Qed.
+
+Lemma wrapg_nil c : wrapg [] c = c.
+Proof. unfold wrapg. destruct c; reflexivity. Qed.
+Lemma wrapg_app gs n c : n <> [] -> wrapg (gs ++ [n]) c = wrapg gs (spec_k [OGroup n] c).
+Proof.
+  intro Hn. cbn [spec_k]. apply is_nil_false in Hn. rewrite Hn. unfold wrapg.
+  destruct (is_nil c) eqn:Ec; [reflexivity|]. cbn [is_nil]. apply nest_app.
+Qed.
+
+(* make(len+1); copy; newGroups[len] = name  builds old ++ [name] *)
+Lemma set_nth_app {A} (l : list A) x y : set_nth (length l) (l ++ [x]) y = l ++ [y].
+Proof. induction l as [|a r IH]; [reflexivity|]. cbn. now rewrite IH. Qed.
+Lemma go_copy_zero {A} (d : A) (old : list A) : go_copy (repeat d (S (length old))) old = old ++ [d].
+Proof.
+  unfold go_copy. rewrite repeat_length.
+  rewrite firstn_all2 by (apply Nat.le_succ_diag_r).
+  f_equal. induction old as [|a r IH]; [reflexivity|]. cbn [length]. exact IH.
+Qed.
+Lemma new_groups_array (old : list bytes) name :
+  set_nth (length old) (go_copy (repeat [] (S (length old))) old) name = old ++ [name].
+Proof. rewrite go_copy_zero. apply set_nth_app. Qed.
+
+Lemma with_group_orig_read hp h name :
+  let '(hp', h') := with_group_orig hp h name in
+  hp' = hp ++ [read_groups hp (h_groups h) ++ [name]] /\
+  read_groups hp' (h_groups h') = read_groups hp (h_groups h) ++ [name] /\
+  svalid hp' (h_groups h') /\ h_ctx h' = h_ctx h /\ h_name h' = h_name h.
+Proof.
+  unfold with_group_orig. rewrite new_groups_array. cbn [h_groups h_ctx h_name].
+  split; [reflexivity|]. split.
+  - cbn [read_groups]. rewrite app_nth2, Nat.sub_diag by (apply Nat.le_refl). cbn [nth].
+    apply firstn_all2. rewrite app_length. cbn [length]. rewrite Nat.add_1_r. apply Nat.le_refl.
+  - split; [|split; reflexivity]. cbn. rewrite app_length. cbn. lia.
+Qed.
+
+Lemma hinv_with_group name hp h ops g :
+  hinv name hp h ops ->
+  let '(hp', h') := with_group hp h g in
+  (exists ext, hp' = hp ++ ext) /\ hinv name hp' h' (ops ++ [OGroup g]).
+Proof.
+  intros (Hn & Hv & Hc). unfold with_group. destruct (is_nil g) eqn:Eg.
+  - split; [exists []; now rewrite app_nil_r|].
+    split; [exact Hn|]. split; [exact Hv|]. intro c. rewrite spec_k_app. cbn [spec_k]. rewrite Eg. apply Hc.
+  - pose proof (with_group_orig_read hp h g) as H.
+    destruct (with_group_orig hp h g) as [hp' h'].
+    destruct H as (Ehp & Er & Hv' & Ectx & Ename).
+    split; [eexists; exact Ehp|].
+    split; [congruence|]. split; [exact Hv'|].
+    intro c. rewrite Er, Ectx, spec_k_app, wrapg_app by (now apply is_nil_false). apply Hc.
+Qed.
+
+Lemma hinv_with_attrs name hp h ops a :
+  hinv name hp h ops -> hinv name hp (with_attrs convert hp h a) (ops ++ [OAttrs a]).
+Proof.
+  intros (Hn & Hv & Hc). unfold with_attrs.
+  destruct (attr_loop convert (read_groups hp (h_groups h)) a [] false) as [F added] eqn:EL.
+  destruct (loop_sem _ _ _ _ EL) as [Ea HT].
+  unfold hinv. cbn [h_ctx h_name h_groups]. split; [exact Hn|]. split; [destruct added; [exact I|exact Hv]|].
+  intro c. rewrite fold_right_app, HT, spec_k_app. cbn [spec_k]. rewrite <- Hc. f_equal.
+  destruct added.
+  - cbn [read_groups]. rewrite wrapg_nil.
+    symmetry in Ea. apply andb_true_iff in Ea. destruct Ea as [_ Ea].
+    unfold wrapg. rewrite is_nil_app. apply negb_true_iff in Ea. rewrite Ea. reflexivity.
+  - symmetry in Ea. apply andb_false_iff in Ea. destruct Ea as [Ea|Ea]; apply negb_false_iff in Ea; apply is_nil_true in Ea.
+    + rewrite Ea, !wrapg_nil. reflexivity.
+    + rewrite Ea. reflexivity.
+Qed.
+
+Lemma hinv_handle name hp h ops rec F added :
+  hinv name hp h ops ->
+  attr_loop convert (read_groups hp (h_groups h)) rec [] false = (F, added) ->
+  denote (h_ctx h ++ F) = spec_sem ops rec.
+Proof.
+  intros (Hn & Hv & Hc) EL. destruct (loop_sem _ _ _ _ EL) as [Ea HT].
+  unfold denote. rewrite fold_right_app, HT, spec_sem_k, <- Hc. f_equal.
+  rewrite app_nil_r. destruct added.
+  - symmetry in Ea. apply andb_true_iff in Ea. destruct Ea as [_ Ea]. apply negb_true_iff in Ea.
+    unfold wrapg. now rewrite Ea.
+  - symmetry in Ea. apply andb_false_iff in Ea. destruct Ea as [Ea|Ea]; apply negb_false_iff in Ea; apply is_nil_true in Ea.
+    + rewrite Ea, wrapg_nil. reflexivity.
+    + rewrite Ea. reflexivity.
+Qed.
+
+(* ------------------------------------------------------------------ *)
+(* levels                                                              *)
+(* ------------------------------------------------------------------ *)
+Lemma level_spec l : convert_slog_level l = spec_level l.
+Proof.
+  unfold convert_slog_level, spec_level.
+  destruct (8 <=? l) eqn:E8; destruct (4 <=? l) eqn:E4; destruct (0 <=? l) eqn:E0;
+  destruct (l <? 0) eqn:F0; destruct (l <? 4) eqn:F4; destruct (l <? 8) eqn:F8; try reflexivity; lia.
+Qed.
+
+Lemma level_monotone l1 l2 : l1 <= l2 -> convert_slog_level l1 <= convert_slog_level l2.
+Proof.
+  intro H. unfold convert_slog_level.
+  destruct (8 <=? l1) eqn:A8; destruct (4 <=? l1) eqn:A4; destruct (0 <=? l1) eqn:A0;
+  destruct (8 <=? l2) eqn:B8; destruct (4 <=? l2) eqn:B4; destruct (0 <=? l2) eqn:B0; lia.
+Qed.
+
+Lemma level_thresholds l :
+  (convert_slog_level l = 2 <-> 8 <= l) /\
+  (convert_slog_level l = 1 <-> 4 <= l < 8) /\
+  (convert_slog_level l = 0 <-> 0 <= l < 4) /\
+  (convert_slog_level l = -1 <-> l < 0).
+Proof.
+  unfold convert_slog_level.
+  destruct (8 <=? l) eqn:A8; destruct (4 <=? l) eqn:A4; destruct (0 <=? l) eqn:A0; lia.
+Qed.
+
+Lemma level_range l : -1 <= convert_slog_level l <= 2.
+Proof.
+  unfold convert_slog_level.
+  destruct (8 <=? l); destruct (4 <=? l); destruct (0 <=? l); lia.
+Qed.
+
+(* ------------------------------------------------------------------ *)
+(* 4. programs                                                         *)
+(* ------------------------------------------------------------------ *)
+Definition winv (name : bytes) (hp : heap) (st : list handler) (paths : list (list op)) : Prop :=
+  Forall2 (hinv name hp) st paths.
+
+Lemma winv_ext name hp ext st paths : winv name hp st paths -> winv name (hp ++ ext) st paths.
+Proof. intro H. induction H; constructor; [now apply hinv_ext|assumption]. Qed.
+
+Lemma winv_nth name hp st paths i :
+  winv name hp st paths -> hinv name hp (nth i st (root name)) (nth i paths []).
+Proof.
+  intro H. revert i. induction H as [|h ops st paths Hh _ IH]; intro i.
+  - destruct i; apply hinv_root.
+  - destruct i; [exact Hh|apply IH].
+Qed.
+
+Lemma winv_snoc name hp st paths h ops :
+  winv name hp st paths -> hinv name hp h ops -> winv name hp (st ++ [h]) (paths ++ [ops]).
+Proof. intros H Hh. apply Forall2_app; [exact H|]. constructor; [exact Hh|constructor]. Qed.
+
+Lemma handle_observe name en hp h ops l m rec :
+  hinv name hp h ops ->
+  observe (enabled en l, handle convert en hp h l m rec) = spec_out en name ops l m rec.
+Proof.
+  intro Hh. unfold observe, spec_out, enabled, handle. cbn [fst snd]. rewrite level_spec.
+  destruct (en (spec_level l)) eqn:Een; [|reflexivity].
+  destruct (attr_loop convert (read_groups hp (h_groups h)) rec [] false) as [F added] eqn:EL.
+  cbn [e_level e_msg e_name e_fields].
+  rewrite (hinv_handle _ _ _ _ _ _ _ Hh EL). destruct Hh as (Hn & _). rewrite Hn. reflexivity.
+Qed.
+
+Lemma program_gen en name p : forall hp st paths,
+  winv name hp st paths ->
+  map observe (run convert with_group en name hp st p) = spec_run en name paths p.
+Proof.
+  induction p as [|c r IH]; intros hp st paths HW; [reflexivity|].
+  destruct c as [par g|par a|i l m rec]; cbn [run spec_run].
+  - pose proof (hinv_with_group name hp _ _ g (winv_nth _ _ _ _ par HW)) as H.
+    destruct (with_group hp (nth par st (root name)) g) as [hp' h'].
+    destruct H as [[ext ->] Hh]. apply IH.
+    apply winv_snoc; [now apply winv_ext|exact Hh].
+  - apply IH. apply winv_snoc; [exact HW|]. apply hinv_with_attrs. now apply winv_nth.
+  - cbn [map]. rewrite (IH hp st paths HW). f_equal.
+    apply handle_observe. now apply winv_nth.
+Qed.
+
+Theorem program_thm en name p :
+  map observe (run_fixed en name p) = spec_run en name [[]] p.
+Proof.
+  unfold run_fixed. apply program_gen. constructor; [apply hinv_root|constructor].
+Qed.
+
+(* ------------------------------------------------------------------ *)
+(* 5. corollaries                                                      *)
+(* ------------------------------------------------------------------ *)
+Lemma spec_run_chain en name l m rec ops : forall paths base i,
+  length paths = S i -> nth i paths [] = base ->
+  spec_run en name paths (chain_from i ops ++ [CHandle (i + length ops) l m rec]) =
+  [spec_out en name (base ++ ops) l m rec].
+Proof.
+  induction ops as [|o r IH]; intros paths base i HL HB.
+  - cbn [chain_from app length spec_run]. rewrite Nat.add_0_r, HB, app_nil_r. reflexivity.
+  - assert (HL' : length (paths ++ [base ++ [o]]) = S (S i)) by (rewrite app_length; cbn; lia).
+    assert (HB' : nth (S i) (paths ++ [base ++ [o]]) [] = base ++ [o])
+      by (rewrite app_nth2 by lia; rewrite HL, Nat.sub_diag; reflexivity).
+    specialize (IH _ _ _ HL' HB').
+    replace (i + length (o :: r))%nat with (S i + length r)%nat by (cbn; lia).
+    rewrite <- app_assoc in IH. cbn [app] in IH.
+    destruct o as [g|a]; cbn [chain_from app spec_run]; rewrite HB; exact IH.
+Qed.
+
+Theorem semantics_thm en name ops l m rec :
+  map observe (run_fixed en name (chain ops l m rec)) = [spec_out en name ops l m rec].
+Proof.
+  rewrite program_thm. unfold chain.
+  exact (spec_run_chain en name l m rec ops [[]] [] 0%nat eq_refl eq_refl).
+Qed.
+
+(* the field list itself, for an enabled core: its denotation is the contract's tree *)
+Theorem semantics_fields name ops l m rec :
+  exists e, run_fixed (fun _ => true) name (chain ops l m rec) = [(true, Some e)] /\
+            denote (e_fields e) = spec_sem ops rec /\
+            e_level e = spec_level l /\ e_msg e = m /\ e_name e = name.
+Proof.
+  pose proof (semantics_thm (fun _ => true) name ops l m rec) as H.
+  destruct (run_fixed (fun _ => true) name (chain ops l m rec)) as [|[b [e|]] [|? ?]]; try discriminate H.
+  unfold spec_out in H. cbn in H. injection H as Hb He1 He2 He3 He4.
+  exists e. subst b. repeat split; assumption.
+Qed.
+
+Lemma spec_run_paths en name p : forall paths,
+  spec_run en name paths p =
+  map (fun x => match x with (ops, l, m, rec) => spec_out en name ops l m rec end) (handled_paths paths p).
+Proof.
+  induction p as [|c r IH]; intro paths; [reflexivity|].
+  destruct c as [par g|par a|i l m rec]; cbn [spec_run handled_paths map]; now rewrite IH.
+Qed.
+
+(* every Handle of any program gives what the same handler gives when it is derived alone
+   from a fresh root: nothing done to parents, siblings or children matters *)
+Theorem isolated_thm en name p :
+  map observe (run_fixed en name p) =
+  flat_map (fun x => match x with (ops, l, m, rec) => map observe (run_fixed en name (chain ops l m rec)) end)
+           (handled_paths [[]] p).
+Proof.
+  rewrite program_thm, spec_run_paths.
+  induction (handled_paths [[]] p) as [|[[[ops l] m] rec] r IH]; [reflexivity|].
+  cbn [map flat_map]. rewrite semantics_thm, IH. reflexivity.
+Qed.
+
+(* Enabled and Handle, for any handler whatsoever (hence after any derivation) *)
+Theorem enabled_thm cv en hp h l m rec :
+  enabled en l = en (convert_slog_level l) /\
+  (handle cv en hp h l m rec <> None <-> en (convert_slog_level l) = true) /\
+  (forall e, handle cv en hp h l m rec = Some e -> e_level e = convert_slog_level l /\ e_msg e = m /\ e_name e = h_name h).
+Proof.
+  unfold enabled, handle. split; [reflexivity|].
+  destruct (en (convert_slog_level l)); destruct (attr_loop cv (read_groups hp (h_groups h)) rec [] false) as [F a].
+  - split; [split; [reflexivity|discriminate]|]. intros e [= <-]. repeat split.
+  - split; [split; [congruence|discriminate]|]. discriminate.
+Qed.
+
+Lemma run_enabled cv wg en name p : forall hp st,
+  Forall (fun o : out => fst o = match snd o with Some _ => true | None => false end) (run cv wg en name hp st p).
+Proof.
+  induction p as [|c r IH]; intros hp st; [constructor|].
+  destruct c as [par g|par a|i l m rec]; cbn [run].
+  - destruct (wg hp (nth par st (root name)) g) as [hp' h']. apply IH.
+  - apply IH.
+  - constructor; [|apply IH]. cbn [fst snd]. unfold enabled, handle.
+    destruct (en (convert_slog_level l)); [|reflexivity].
+    destruct (attr_loop cv (read_groups hp (h_groups (nth i st (root name)))) rec [] false). reflexivity.
+Qed.
+
+(* wire *)
+Theorem spec_model i : spec i (model i) = true.
+Proof.
+  unfold spec, model. destruct (dec_case i) as [[mask name] p].
+  rewrite <- program_thm, map_map. apply sx_eqb_refl.
+Qed.
+
+(* ------------------------------------------------------------------ *)
+(* 6. the code before the fix, and the aliasing variant                *)
+(* ------------------------------------------------------------------ *)
+Definition semantics_orig : Prop :=
+  forall en name ops l m rec,
+    map observe (run_orig en name (chain ops l m rec)) = [spec_out en name ops l m rec].
+
+Definition all_on (_ : Z) : bool := true.
+Definition kx : bytes := [x78].   (* "x" *)
+Definition kg : bytes := [x67].   (* "g" *)
+Definition one : value := VScalar KInt64 [x31].
+Definition vnull : value := VAny true (Leaf [x6e; x75; x6c; x6c]).
+
+(* WithGroup("") then Handle(x=1): the code before the fix shows {"":{"x":1}} *)
+Lemma withgroup_empty_refuted :
+  map observe (run_orig all_on [] (chain [OGroup []] 0 [] [(kx, one)])) =
+    [(true, Some (0, [], [], [([], Node [(kx, Leaf [x31])])]))] /\
+  spec_out all_on [] [OGroup []] 0 [] [(kx, one)] = (true, Some (0, [], [], [(kx, Leaf [x31])])).
+Proof. split; vm_compute; reflexivity. Qed.
+
+(* WithAttrs(g = group with no attrs) then Handle(): {"g":{}} *)
+Lemma empty_group_refuted :
+  map observe (run_orig all_on [] (chain [OAttrs [(kg, VGroup [])]] 0 [] [])) =
+    [(true, Some (0, [], [], [(kg, Node [])]))] /\
+  spec_out all_on [] [OAttrs [(kg, VGroup [])]] 0 [] [] = (true, Some (0, [], [], [])).
+Proof. split; vm_compute; reflexivity. Qed.
+
+(* the same through a LogValuer inside a group of the record: {"x":{"g":{}}} *)
+Lemma empty_group_logvaluer_refuted :
+  map observe (run_orig all_on [] (chain [] 0 [] [(kx, VGroup [(kg, VLogValuer (VGroup []))])])) =
+    [(true, Some (0, [], [], [(kx, Node [(kg, Node [])])]))] /\
+  spec_out all_on [] [] 0 [] [(kx, VGroup [(kg, VLogValuer (VGroup []))])] = (true, Some (0, [], [], [])).
+Proof. split; vm_compute; reflexivity. Qed.
+
+(* WithGroup("g") then Handle(inline group holding only an empty Attr): {"g":{}} *)
+Lemma inline_empties_refuted :
+  map observe (run_orig all_on [] (chain [OGroup kg] 0 [] [([], VGroup [([], vnull)])])) =
+    [(true, Some (0, [], [], [(kg, Node [])]))] /\
+  spec_out all_on [] [OGroup kg] 0 [] [([], VGroup [([], vnull)])] = (true, Some (0, [], [], [])).
+Proof. split; vm_compute; reflexivity. Qed.
+
+Theorem semantics_orig_refuted : ~ semantics_orig.
+Proof.
+  intro H. specialize (H all_on [] [OGroup []] 0 [] [(kx, one)]).
+  destruct withgroup_empty_refuted as [E1 E2]. rewrite E1, E2 in H. discriminate H.
+Qed.
+
+(* isolation is a fact about the slice copy: with append instead of make+copy, a sibling
+   derived later overwrites the group name of an earlier one *)
+Definition isolated_append : Prop :=
+  forall en name p,
+    map observe (run_append en name p) =
+    flat_map (fun x => match x with (ops, l, m, rec) => map observe (run_append en name (chain ops l m rec)) end)
+             (handled_paths [[]] p).
+
+Definition ka : bytes := [x61].
+Definition kb : bytes := [x62].
+Definition kc : bytes := [x63].
+Definition ky : bytes := [x79].
+(* root -a-> 1 -b-> 2 -c-> 3 (len 3, cap 4); 3 -x-> 4 and 3 -y-> 5 share slot 3 *)
+Definition alias_prog : list cmd :=
+  [CGroup 0 ka; CGroup 1 kb; CGroup 2 kc; CGroup 3 kx; CGroup 3 ky; CHandle 4 0 [] [(kx, one)]].
+
+Theorem isolated_append_refuted : ~ isolated_append.
+Proof.
+  intro H. specialize (H all_on [] alias_prog). vm_compute in H. discriminate H.
+Qed.
+
+(* the code (make + copy) on the same program: handler 4 still nests under a.b.c.x *)
+Lemma alias_prog_fixed :
+  map observe (run_fixed all_on [] alias_prog) =
+  [(true, Some (0, [], [], [(ka, Node [(kb, Node [(kc, Node [(kx, Node [(kx, Leaf [x31])])])])])]))].
+Proof. vm_compute. reflexivity. Qed.
+
+(* ------------------------------------------------------------------ *)
+(* 7. isolation on the raw entries, whatever the conversion function   *)
+(*    (holds for the code before the fix as well): a handler is, up to *)
+(*    heap addresses, a pure value determined by its own derivation    *)
+(* ------------------------------------------------------------------ *)
+Record qh := { q_ctx : list field; q_name : bytes; q_groups : list bytes }.
+Definition abs (hp : heap) (h : handler) : qh :=
+  {| q_ctx := h_ctx h; q_name := h_name h; q_groups := read_groups hp (h_groups h) |}.
+Definition q_with_attrs (cv : bytes -> value -> field) (q : qh) (a : list attr) : qh :=
+  let '(F, added) := attr_loop cv (q_groups q) a [] false in
+  {| q_ctx := q_ctx q ++ F; q_name := q_name q; q_groups := if added then [] else q_groups q |}.
+Definition q_with_group_orig (q : qh) (g : bytes) : qh :=
+  {| q_ctx := q_ctx q; q_name := q_name q; q_groups := q_groups q ++ [g] |}.
+Definition q_with_group (q : qh) (g : bytes) : qh := if is_nil g then q else q_with_group_orig q g.
+Definition q_handle (cv : bytes -> value -> field) (en : Z -> bool) (q : qh) (l : Z) (m : bytes) (rec : list attr) : option entry :=
+  let zl := convert_slog_level l in
+  if en zl then
+    let '(F, _) := attr_loop cv (q_groups q) rec [] false in
+    Some {| e_level := zl; e_msg := m; e_name := q_name q; e_fields := q_ctx q ++ F |}
+  else None.
+Definition q_apply cv (qwg : qh -> bytes -> qh) (q : qh) (o : op) : qh :=
+  match o with OGroup g => qwg q g | OAttrs a => q_with_attrs cv q a end.
+Definition q_root (name : bytes) : qh := {| q_ctx := []; q_name := name; q_groups := [] |}.
+Definition q_derive cv qwg (name : bytes) (ops : list op) : qh := fold_left (q_apply cv qwg) ops (q_root name).
+
+Definition wg_ok (wg : heap -> handler -> bytes -> heap * handler) (qwg : qh -> bytes -> qh) : Prop :=
+  forall hp h g, svalid hp (h_groups h) ->
+    let '(hp', h') := wg hp h g in
+    (exists ext, hp' = hp ++ ext) /\ svalid hp' (h_groups h') /\ abs hp' h' = qwg (abs hp h) g.
+
+Lemma wg_ok_orig : wg_ok with_group_orig q_with_group_orig.
+Proof.
+  intros hp h g Hv. pose proof (with_group_orig_read hp h g) as H.
+  destruct (with_group_orig hp h g) as [hp' h']. destruct H as (Ehp & Er & Hv' & Ectx & Ename).
+  split; [eexists; exact Ehp|]. split; [exact Hv'|].
+  unfold abs, q_with_group_orig. cbn [q_ctx q_name q_groups]. now rewrite Er, Ectx, Ename.
+Qed.
+Lemma wg_ok_fixed : wg_ok with_group q_with_group.
+Proof.
+  intros hp h g Hv. unfold with_group, q_with_group. destruct (is_nil g).
+  - split; [exists []; now rewrite app_nil_r|]. split; [exact Hv|reflexivity].
+  - apply wg_ok_orig. exact Hv.
+Qed.
+
+Lemma abs_with_attrs cv hp h a : abs hp (with_attrs cv hp h a) = q_with_attrs cv (abs hp h) a.
+Proof.
+  unfold with_attrs, q_with_attrs, abs. cbn [q_groups q_ctx q_name].
+  destruct (attr_loop cv (read_groups hp (h_groups h)) a [] false) as [F added].
+  cbn [h_ctx h_name h_groups]. destruct added; reflexivity.
+Qed.
+Lemma svalid_with_attrs cv hp h a : svalid hp (h_groups h) -> svalid hp (h_groups (with_attrs cv hp h a)).
+Proof.
+  intro Hv. unfold with_attrs.
+  destruct (attr_loop cv (read_groups hp (h_groups h)) a [] false) as [F added].
+  cbn [h_groups]. destruct added; [exact I|exact Hv].
+Qed.
+Lemma handle_abs cv en hp h l m rec : handle cv en hp h l m rec = q_handle cv en (abs hp h) l m rec.
+Proof. reflexivity. Qed.
+Lemma abs_ext hp ext h : svalid hp (h_groups h) -> abs (hp ++ ext) h = abs hp h.
+Proof. intro Hv. unfold abs. now rewrite read_groups_ext. Qed.
+
+Section raw_isolation.
+  Variable cv : bytes -> value -> field.
+  Variable wg : heap -> handler -> bytes -> heap * handler.
+  Variable qwg : qh -> bytes -> qh.
+  Hypothesis Hwg : wg_ok wg qwg.
+  Variable en : Z -> bool.
+  Variable name : bytes.
+
+  Definition qinv (hp : heap) (h : handler) (ops : list op) : Prop :=
+    svalid hp (h_groups h) /\ abs hp h = q_derive cv qwg name ops.
+  Definition q_out (x : list op * Z * bytes * list attr) : out :=
+    match x with (ops, l, m, rec) => (enabled en l, q_handle cv en (q_derive cv qwg name ops) l m rec) end.
+
+  Lemma qinv_root hp : qinv hp (root name) [].
+  Proof. split; [exact I|reflexivity]. Qed.
+  Lemma qinv_ext hp ext h ops : qinv hp h ops -> qinv (hp ++ ext) h ops.
+  Proof. intros [Hv Ha]. split; [now apply svalid_ext|]. now rewrite abs_ext. Qed.
+  Lemma qinv_nth hp st paths i :
+    Forall2 (qinv hp) st paths -> qinv hp (nth i st (root name)) (nth i paths []).
+  Proof.
+    intro H. revert i. induction H as [|h ops st paths Hh _ IH]; intro i.
+    - destruct i; apply qinv_root.
+    - destruct i; [exact Hh|apply IH].
+  Qed.
+  Lemma q_derive_snoc ops o : q_derive cv qwg name (ops ++ [o]) = q_apply cv qwg (q_derive cv qwg name ops) o.
+  Proof. unfold q_derive. now rewrite fold_left_app. Qed.
+
+  Lemma run_raw p : forall hp st paths,
+    Forall2 (qinv hp) st paths ->
+    run cv wg en name hp st p = map q_out (handled_paths paths p).
+  Proof.
+    induction p as [|c r IH]; intros hp st paths HW; [reflexivity|].
+    destruct c as [par g|par a|i l m rec]; cbn [run handled_paths].
+    - destruct (qinv_nth _ _ _ par HW) as [Hv Ha].
+      pose proof (Hwg hp (nth par st (root name)) g Hv) as H.
+      destruct (wg hp (nth par st (root name)) g) as [hp' h'].
+      destruct H as ([ext ->] & Hv' & Ha'). apply IH.
+      apply Forall2_app.
+      + clear -HW. induction HW; constructor; [now apply qinv_ext|assumption].
+      + constructor; [|constructor]. split; [exact Hv'|].
+        rewrite Ha', Ha, q_derive_snoc. reflexivity.
+    - destruct (qinv_nth _ _ _ par HW) as [Hv Ha]. apply IH.
+      apply Forall2_app; [exact HW|]. constructor; [|constructor].
+      split; [now apply svalid_with_attrs|].
+      rewrite abs_with_attrs, Ha, q_derive_snoc. reflexivity.
+    - cbn [map]. rewrite (IH hp st paths HW). f_equal.
+      destruct (qinv_nth _ _ _ i HW) as [Hv Ha].
+      unfold q_out. now rewrite handle_abs, Ha.
+  Qed.
+
+  Lemma handled_paths_chain l m rec ops : forall paths base i,
+    length paths = S i -> nth i paths [] = base ->
+    handled_paths paths (chain_from i ops ++ [CHandle (i + length ops) l m rec]) = [(base ++ ops, l, m, rec)].
+  Proof.
+    induction ops as [|o r IH]; intros paths base i HL HB.
+    - cbn [chain_from app length handled_paths]. rewrite Nat.add_0_r, HB, app_nil_r. reflexivity.
+    - assert (HL' : length (paths ++ [base ++ [o]]) = S (S i)) by (rewrite app_length; cbn; lia).
+      assert (HB' : nth (S i) (paths ++ [base ++ [o]]) [] = base ++ [o])
+        by (rewrite app_nth2 by lia; rewrite HL, Nat.sub_diag; reflexivity).
+      specialize (IH _ _ _ HL' HB').
+      replace (i + length (o :: r))%nat with (S i + length r)%nat by (cbn; lia).
+      rewrite <- app_assoc in IH. cbn [app] in IH.
+      destruct o as [g|a]; cbn [chain_from app handled_paths]; rewrite HB; exact IH.
+  Qed.
+
+  Theorem isolated_raw p :
+    run cv wg en name [] [root name] p =
+    flat_map (fun x => match x with (ops, l, m, rec) => run cv wg en name [] [root name] (chain ops l m rec) end)
+             (handled_paths [[]] p).
+  Proof.
+    assert (H0 : Forall2 (qinv []) [root name] [[]]) by (constructor; [apply qinv_root|constructor]).
+    rewrite (run_raw p _ _ _ H0).
+    induction (handled_paths [[]] p) as [|[[[ops l] m] rec] r IH]; [reflexivity|].
+    cbn [map flat_map]. rewrite IH. f_equal.
+    rewrite (run_raw (chain ops l m rec) _ _ _ H0). unfold chain.
+    pose proof (handled_paths_chain l m rec ops [[]] [] 0%nat eq_refl eq_refl) as HC.
+    cbn [Nat.add app] in HC. rewrite HC. reflexivity.
+  Qed.
+End raw_isolation.
+
+Theorem isolated_raw_fixed en name p :
+  run_fixed en name p =
+  flat_map (fun x => match x with (ops, l, m, rec) => run_fixed en name (chain ops l m rec) end)
+           (handled_paths [[]] p).
+Proof. exact (isolated_raw convert with_group q_with_group wg_ok_fixed en name p). Qed.
+Theorem isolated_raw_orig en name p :
+  run_orig en name p =
+  flat_map (fun x => match x with (ops, l, m, rec) => run_orig en name (chain ops l m rec) end)
+           (handled_paths [[]] p).
+Proof. exact (isolated_raw convert_orig with_group_orig q_with_group_orig wg_ok_orig en name p). Qed.
